@@ -44,7 +44,7 @@ func (c *Ctx) LoadFC(dir string) *FC {
 	// an extracted helper (the most common behaviour-preserving refactoring); see baseline_funcs.go
 	if base, ok := baselineFuncs[filepath.Base(m.Dir)]; ok {
 		for _, g := range prog.Funcs {
-			if g.Generated && !base[g.Name] {
+			if g.Generated && !base[g.Name] && !reachesItself(prog, g) {
 				n.Inline[g.Key] = g
 			}
 		}
@@ -218,4 +218,34 @@ func diffHint(got, want string) string {
 		return s[lo:hi]
 	}
 	return "first difference at offset " + sprintf("%d", i) + ": got …" + cut(got) + "… expected …" + cut(want) + "…"
+}
+
+
+// reachesItself: g is (directly or mutually) recursive — such a function is never inlined.
+func reachesItself(prog *ir.Program, g *ir.Func) bool {
+	seen := map[string]bool{}
+	var visit func(fn *ir.Func) bool
+	visit = func(fn *ir.Func) bool {
+		found := false
+		ir.WalkFunc(fn, func(t ir.Term) bool {
+			if found {
+				return false
+			}
+			if fr, ok := t.(*ir.FuncRef); ok {
+				if fr.Key == g.Key {
+					found = true
+					return false
+				}
+				if callee, ok := prog.ByKey[fr.Key]; ok && !seen[fr.Key] {
+					seen[fr.Key] = true
+					if visit(callee) {
+						found = true
+					}
+				}
+			}
+			return !found
+		})
+		return found
+	}
+	return visit(g)
 }
